@@ -329,7 +329,7 @@ def rule_option(run, F, cfg):
         for b, i, st in h.statements():
             if st["k"] != "assign" or not re.search(r"(up:|\$)modifier_option$", h.vexpr_place(st["pl"])):
                 continue
-            val = h.vexpr_rvalue(st["rv"])
+            val = h.expr_rvalue(st["rv"])       # flow-insensitive provenance: names the option payload
             if not val.startswith("std::option::Option::Some{"):
                 continue
             c = dominating_conditions(h, b, render=h.vexpr_operand)
